@@ -28,7 +28,16 @@ type Clause struct {
 	Pinned bool
 }
 
+type Inherit struct {
+	Callee string
+	Cond   *Expr
+	Binds  map[string]*Expr
+	Src    string
+	Tags   []string
+}
+
 type LoopSpec struct {
+	Inherits   []*Inherit
 	Invariants []*Clause
 	Steps      []*Clause
 	Exits      []*Clause
@@ -347,6 +356,37 @@ func (cs *ContractSet) loadFile(path, repo string) error {
 				if ls == nil {
 					ls = &LoopSpec{}
 					cur.Loops[n] = ls
+				}
+				if kind == "inherit" {
+					// loop N inherit <callee key> when <cond> [with a = e, b = f]
+					f2 := strings.Fields(r2)
+					if len(f2) < 3 || f2[1] != "when" {
+						return fail(fmt.Errorf("loop inherit: <callee> when <cond> [with ...]"))
+					}
+					inh := &Inherit{Callee: f2[0], Binds: map[string]*Expr{}, Src: r2}
+					rest3 := strings.TrimSpace(strings.TrimPrefix(strings.TrimSpace(strings.TrimPrefix(r2, f2[0])), "when"))
+					condSrc := rest3
+					if i := strings.Index(rest3, " with "); i >= 0 {
+						condSrc = rest3[:i]
+						for _, b := range splitTop(rest3[i+6:]) {
+							kv := strings.SplitN(b, "=", 2)
+							if len(kv) != 2 {
+								return fail(fmt.Errorf("loop inherit: bad binding %q", b))
+							}
+							e, err := parseSpecExpr(strings.TrimSpace(kv[1]))
+							if err != nil {
+								return fail(err)
+							}
+							inh.Binds[strings.TrimSpace(kv[0])] = e
+						}
+					}
+					ce, err := parseSpecExpr(condSrc)
+					if err != nil {
+						return fail(err)
+					}
+					inh.Cond = ce
+					ls.Inherits = append(ls.Inherits, inh)
+					break
 				}
 				if kind == "dominates" {
 					ls.Dominates = append(ls.Dominates, &Clause{Kind: kind, Src: r2, File: path, Line: rc.line})
